@@ -1,15 +1,37 @@
 #!/bin/bash
-# usage: tools/try_mutant.sh <patch.diff> <property> [budget_s] [variants...]
-# Applies a seeded change to a scratch copy of /repo's working tree (never to /repo itself),
-# runs the property's check against the copy, prints its verdict, removes the copy.
+# usage: tools/try_mutant.sh <patch.diff> <property> [budget_s] [seed-id]
+# Applies a seeded change to a scratch copy of /repo's working tree (never to /repo itself), runs the property's
+# quick check against the copy (own build dir, own evidence and replay dirs), prints its verdict, removes the copy.
+# With a seed-id the verdict (exit code, violation classes, replay file) is recorded in seeded/<seed-id>/.
 set -u
-PATCH=$(readlink -f "$1"); PROP=$2; BUDGET=${3:-40}
-S=/dev/shm/mut_$$; mkdir -p $S; rm -rf /dev/shm/mut_last; mkdir -p /dev/shm/mut_last
+PATCH=$(readlink -f "$1"); PROP=$2; BUDGET=${3:-40}; SID=${4:-}
+S=/dev/shm/mut_$$; mkdir -p $S $S/replays
 rsync -a --exclude _build --exclude .git /repo/ $S/repo/
 if ! (cd $S/repo && patch -p1 --no-backup-if-mismatch < "$PATCH" > $S/patch.log 2>&1); then echo "PATCH DOES NOT APPLY"; cat $S/patch.log; rm -rf $S; exit 3; fi
 mkdir -p $S/build
 for v in $(ls /verif/build); do cp -a /verif/build/$v $S/build/; done
-find $S/build -name '*.d' | xargs sed -i "s#/repo/#$S/repo/#g"
-cd /verif && VERIF_EVIDENCE_DIR=$S/evidence VERIF_REPLAY_DIR=/dev/shm/mut_last VERIF_REPO=$S/repo VERIF_BUILD=$S/build VERIF_BUDGET_S=$BUDGET python3 vcheck.py $PROP --tier quick 2>&1 | grep -v "^build ok" | cut -c1-400 | tail -12
-echo "exit=${PIPESTATUS[0]}"
+find $S/build -name '*.d' | xargs sed -i -e "s# /repo/# $S/repo/#g" -e "s#^/verif/build/#$S/build/#"
+cd /verif && VERIF_EVIDENCE_DIR=$S/evidence VERIF_REPLAY_DIR=$S/replays VERIF_REPO=$S/repo VERIF_BUILD=$S/build VERIF_BUDGET_S=$BUDGET python3 vcheck.py $PROP --tier quick > $S/out.log 2>&1
+RC=$?
+grep -v "^build ok" $S/out.log | cut -c1-400 | tail -12
+echo "exit=$RC"
+rm -rf /dev/shm/mut_last; mkdir -p /dev/shm/mut_last; cp -f $S/replays/* /dev/shm/mut_last/ 2>/dev/null
+if [ -n "$SID" ] && [ -d /verif/seeded/$SID ]; then
+  python3 - "$SID" "$PROP" "$RC" "$S" "$BUDGET" <<'PY'
+import sys, json, re, os, shutil, glob
+sid, prop, rc, S, budget = sys.argv[1:6]; rc = int(rc)
+out = open(os.path.join(S, "out.log"), errors="replace").read()
+classes = re.findall(r"violation class ([^:\n]+): ([^\n]{0,300})", out)
+summary = (re.findall(r"^%s quick: .*$" % prop, out, re.M) or [""])[-1]
+p = "/verif/seeded/%s/meta.json" % sid; m = json.load(open(p)); d = [x for x in (m.get("detected_by") or []) if x.get("check") != prop]
+ent = {"check": prop, "command": "tools/try_mutant.sh seeded/%s/patch.diff %s %s" % (sid, prop, budget), "exit": rc,
+       "result": "detected" if rc == 1 else ("not detected" if rc == 0 else "harness problem"),
+       "violation_classes": [{"clause": c, "detail": t} for c, t in classes[:6]], "summary": summary}
+reps = sorted(glob.glob(os.path.join(S, "replays", "*.json")))
+if rc == 1 and reps:
+    dst = "/verif/seeded/%s/detected-%s.replay.json" % (sid, prop); shutil.copy(reps[0], dst); ent["replay"] = os.path.basename(dst)
+d.append(ent); m["detected_by"] = d; json.dump(m, open(p, "w"), indent=1)
+PY
+fi
 rm -rf $S
+exit $RC
